@@ -115,7 +115,91 @@ def gen_mesh(rnd, quick=True, types_pool=None):
     return m
 
 
-def gen_vars(rnd, m, misaligned=False):
+# dtype dimension (round 4, class F): the point data of the file must hold the same VALUES as the variable, whatever dtype
+# the variable has and whatever dtype the file uses (compared as Python ints / exact binary fractions)
+INT_DTYPES = ['int8', 'int16', 'int32', 'int64', 'uint8', 'uint16', 'uint32', 'uint64']
+DTYPES = INT_DTYPES + ['int64', 'int64', 'int64', 'uint64', 'float32', 'float32', 'float64']
+# dtypes for which the legacy-VTK writer of meshio (the encoding both sides of the property use) has no encoding at all:
+# the export raises KeyError inside meshio.write; labelled stream, nothing asserted unless the export succeeds
+NOT_ENCODABLE = {'bool', 'float16'}
+PROFILES = ['both-ends', 'both-ends', 'low-end', 'high-end', 'beyond-int32-low', 'beyond-int32-high', 'small']
+LAYOUTS = ['C', 'C', 'F', 'strided', 'readonly']
+
+
+def _int_value(rnd, dt, profile):
+    ii = np.iinfo(dt)
+    lo, hi = int(ii.min), int(ii.max)
+    small = [0, 1, 2, 3, 100, rnd.randint(0, 120)] + ([-1, -2, -rnd.randint(0, 120)] if lo < 0 else [])
+    low = [lo, lo + 1, lo + rnd.randint(0, 1000)] if lo < 0 else [0]
+    high = [hi, hi - 1, hi - rnd.randint(0, 100)]
+    b_low = [-2**31 - 1, -2**31 - rnd.randint(1, 10**6), -3 * 10**9, -2**32, -2**32 - 1, -2**53 - 1, -2**62, lo]
+    b_high = [2**31, 2**31 + rnd.randint(0, 10**6), 2**32 - 1, 2**32, 5 * 10**9, 2**53 + 1, 2**62 + 1, 2**63 - 1, hi]
+    edge32 = [2**31 - 1, -2**31, 2**31 - 2, -2**31 + 1, 2**15, -2**15 - 1, 2**16, 255, 256, -129, 128]
+    pool = {'both-ends': low + high + edge32, 'low-end': low + small, 'high-end': high + small,
+            'beyond-int32-low': b_low + small + [2**31 - 1], 'beyond-int32-high': b_high + small + [-2**31],
+            'small': small}[profile]
+    pool = [x for x in pool if lo <= x <= hi]
+    return rnd.choice(pool) if rnd.random() < .6 else rnd.choice([x for x in small if lo <= x <= hi])
+
+
+def _typed_value(rnd, dt, profile):
+    if dt == 'bool':
+        return F(rnd.randint(0, 1))
+    if dt in INT_DTYPES:
+        return F(_int_value(rnd, dt, profile))
+    if dt == 'float32':
+        x = rnd.choice([rnd.randint(-4000, 4000) / rnd.choice([1, 2, 4, 8]), rnd.uniform(-1e3, 1e3), 3.4028234663852886e38,
+                        -3.4028234663852886e38, 1.401298464324817e-45, 1.1754943508222875e-38, 16777217.0, 0.1, -0.0, 1e-30])
+        return F(float(np.float32(x)))
+    if dt == 'float16':
+        return F(float(np.float16(rnd.choice([rnd.randint(-200, 200) / 4, 65504.0, 6e-8, 0.1]))))
+    x = rnd.choice([rnd.randint(-4000, 4000) / rnd.choice([1, 2, 4, 8]), rnd.uniform(-1e3, 1e3), 1.7976931348623157e308, 5e-324,
+                    -2.2250738585072014e-308, 0.1, 2.0**53 + 2, -(2.0**63), 1e-300, 4294967296.5])
+    return F(float(x))
+
+
+ID_DTYPES = ['uint64', 'uint32', 'int32', 'uint16', 'int16', 'uint8', 'int8', 'int64']
+COORD_DTYPES = ['float32', 'float32', 'int64', 'int32', 'int16', 'uint8', 'uint64', 'int8', 'uint32']
+
+
+def pick_dtypes(rnd, m):
+    """dtype dimension of the mesh arrays: node ids / element ids / connectivity in any integer dtype that holds them
+    (unsigned ones too), coordinates in float32 or an integer dtype (the mesh of the property is then the mesh with the
+    coordinates as that dtype holds them: truncated towards zero, only when they stay inside the dtype's range).
+    -> the mesh with `dtypes` and the coordinates as stored"""
+    out = dict(m)
+    dts = {}
+    n_max = max(i for i, _ in m['nodes'])
+    e_max = max(e for b in m['blocks'].values() for e, _ in b)
+    fits = lambda top: [d for d in ID_DTYPES if top <= int(np.iinfo(d).max)]
+    if rnd.random() < .6:
+        dts['node_ids'] = rnd.choice(fits(n_max))
+    if rnd.random() < .6:
+        dts['conn'] = rnd.choice(fits(n_max))
+    if rnd.random() < .4:
+        dts['elem_ids'] = rnd.choice(fits(e_max))
+    if rnd.random() < .5 and not m.get('geometric_tet2'):
+        arr = np.array([[float(v) for v in p] for _, p in m['nodes']])
+        dt = rnd.choice(COORD_DTYPES)
+        if np.dtype(dt).kind in 'iu':
+            t = np.trunc(arr)
+            if not (t.min() >= int(np.iinfo(dt).min) and t.max() <= int(np.iinfo(dt).max) and np.abs(t).max() < 2**52):
+                dt = 'float32'
+        with np.errstate(all='ignore'):
+            cast = arr.astype(dt)
+        if np.all(np.isfinite(cast.astype(float))):
+            dts['coords'] = dt
+            out['nodes'] = [(i, tuple(F(int(x)) if cast.dtype.kind in 'iu' else F(float(x)) for x in row))
+                            for (i, _), row in zip(m['nodes'], cast)]
+    out['dtypes'] = dts
+    return out
+
+
+def not_encodable(vs):
+    return sorted({v['dtype'] for v in vs if v.get('dtype') in NOT_ENCODABLE and len(v['shape']) < 2})
+
+
+def gen_vars(rnd, m, misaligned=False, dtypes=True, encodable_only=False):
     nids = [i for i, _ in m['nodes']]
     out = []
     for k in range(rnd.randint(1, 4)):
@@ -124,6 +208,18 @@ def gen_vars(rnd, m, misaligned=False):
         integer = rnd.random() < .2
         rows = [[F(rnd.randint(-4000, 4000), 1 if integer else rnd.choice([1, 2, 4, 8])) for _ in range(width)] for _ in nids]
         out.append({'name': f'N{k}', 'shape': list(shape), 'ids': list(nids), 'rows': rows, 'int': integer})
+    # drawn after the legacy values (an own generator forked off the stream), so that the cases of earlier rounds keep
+    # their meshes / shapes for a given seed
+    r2 = __import__('random').Random(rnd.getrandbits(48))
+    for v in out if dtypes else []:
+        if r2.random() < .5:
+            dt, prof = r2.choice(DTYPES + (['float16', 'bool', 'bool'] if r2.random() < .08 else [])), r2.choice(PROFILES)
+            if encodable_only and dt in NOT_ENCODABLE:
+                dt = 'uint8'
+            v.update(dtype=dt, profile=prof, int=dt in INT_DTYPES or dt == 'bool',
+                     rows=[[_typed_value(r2, dt, prof) for _ in r] for r in v['rows']])
+        if r2.random() < .3:
+            v['layout'] = r2.choice(LAYOUTS)
     if misaligned:
         v = out[0]
         while len(v['ids']) > 1 and v['ids'] == nids:
@@ -187,15 +283,42 @@ def mesh_after_update(m, upd):
     return update_nodes(G.to_femio(m), m, upd)
 
 
+def var_array(v):
+    """the array the caller hands to femio: values `rows` in dtype v['dtype'] (default int64 / float64), memory layout
+    v['layout'] (C-ordered, Fortran-ordered, a non-contiguous view of a wider array, read-only)"""
+    dt = v.get('dtype') or ('int64' if v['int'] else 'float64')
+    kind = np.dtype(dt).kind
+    data = np.array([[bool(x) if kind == 'b' else int(x) if kind in 'iu' else float(x) for x in r] for r in v['rows']],
+                    dtype=dt).reshape([len(v['ids'])] + list(v['shape']))
+    lay = v.get('layout', 'C')
+    if lay == 'F':
+        data = np.asfortranarray(data)
+    elif lay == 'strided':
+        wide = np.zeros((2 * len(data) + 1,) + data.shape[1:], dtype=data.dtype)
+        wide[1::2] = data
+        data = wide[1::2]
+    elif lay == 'readonly':
+        data.setflags(write=False)
+    return data
+
+
+def exact_rows(a):
+    """rows of an array read from the file as exact rationals (Python ints for the integer kinds: float() would round
+    64-bit integers beyond 2^53)"""
+    a = np.asarray(a)
+    if a.dtype.kind in 'iub':
+        return [[F(int(x)) for x in np.ravel(r)] for r in a]
+    return [[F(float(x)) for x in np.ravel(r)] for r in a]
+
+
 def build(m, vs, upd=None, keep=None):
     """`keep` (dict): filled with the arrays handed to femio (the caller's arrays), for the history stream"""
     from femio import FEMAttribute
-    fd = G.to_femio(m) if keep is None else to_femio_keep(m, keep)
+    fd = G.to_femio(m) if (keep is None and not m.get('dtypes')) else to_femio_keep(m, {} if keep is None else keep)
     if upd is not None:
         update_nodes(fd, m, upd)
     for v in vs:
-        data = np.array([[int(x) if v['int'] else float(x) for x in r] for r in v['rows']]).reshape(
-            [len(v['ids'])] + list(v['shape']))
+        data = var_array(v)
         if keep is not None:
             keep[('nodal', v['name'])] = data
         key, attr, how, nd = v['name'], v.get('attr', v['name']), v.get('how', 'setitem'), fd.nodal_data
@@ -227,7 +350,7 @@ def run_real(ctx, m, vs, upd=None):
     mm = G.quiet(meshio.read, str(f))
     points = [[F(float(x)) for x in p] for p in np.asarray(mm.points)]
     cells = [(cb.type, [[int(k) for k in r] for r in cb.data]) for cb in mm.cells]
-    pd = {k: [[F(float(x)) for x in np.ravel(r)] for r in v] for k, v in mm.point_data.items()}
+    pd = {k: exact_rows(v) for k, v in mm.point_data.items()}
     return 'ok', {'points': points, 'cells': cells, 'point_data': pd}
 
 
@@ -331,8 +454,14 @@ def oracle(m, vs, out):
             continue
         byid = dict(zip(v['ids'], v['rows']))
         width = int(np.prod(v['shape'])) if v['shape'] else 1
-        if unpad(got, width) != [byid[i] for i in nids]:
-            bad.append(('point-data', f"point data {v['name']} is not the variable's value at the node stored at each position"))
+        want = [byid[i] for i in nids]
+        if unpad(got, width) != want:
+            g = unpad(got, width)
+            k = next((k for k in range(min(len(g), len(want))) if g[k] != want[k]), None)
+            eg = (f': node {nids[k]} (position {k}) has {[str(x) for x in want[k]][:4]}, the file {[str(x) for x in g[k]][:4]}'
+                  if k is not None else f': {len(g)} rows for {len(want)} nodes')
+            bad.append(('point-data', f"point data {v['name']} (dtype {v.get('dtype') or ('int64' if v['int'] else 'float64')}) is not the "
+                        f"variable's value at the node stored at each position{eg}"))
     node_pd = out['point_data'].get('NODE')
     if node_pd is not None and node_pd != pts:
         bad.append(('point-data', 'point data NODE differs from the points'))
@@ -342,6 +471,8 @@ def oracle(m, vs, out):
 def case_json(m, vs, upd=None):
     j = G.to_json(m)
     j['geometric_tet2'] = bool(m.get('geometric_tet2'))
+    if m.get('dtypes'):
+        j['dtypes'] = dict(m['dtypes'])
     out = {'mesh': j, 'vars': C.jsonable(vs)}
     if upd is not None:
         # history: construct `mesh`, nodes.update(update_ids, their own coordinates, allow_overwrite=True), attach `vars`, export
@@ -360,14 +491,28 @@ def one_case(ctx, rnd, pending, stream='main'):
     else:
         m = gen_mesh(rnd, ctx.quick)
     vs = gen_vars(rnd, m, misaligned=(stream == 'misaligned'))
+    if stream == 'main' and rnd.random() < .3:
+        m = pick_dtypes(rnd, m)
+        for k, d in m['dtypes'].items():
+            ctx.count(f'mesh array dtype {k}: {d}')
     impl = run_real(ctx, m, vs)
     ids = [i for i, _ in m['nodes']]
     ctx.case((stream, G.enc_mesh(m), repr(vs)),
              sample={'stream': stream, 'mesh': G.describe(m),
-                     'vars': [(v['name'], v['shape'], 'int' if v['int'] else 'float') + ((f"FEMAttribute.name={v['attr']}", v['how'])
+                     'vars': [(v['name'], v['shape'], v.get('dtype') or ('int' if v['int'] else 'float'), v.get('layout', 'C'))
+                              + ((f"FEMAttribute.name={v['attr']}", v['how'])
                                                                                           if 'attr' in v else ()) for v in vs],
                      'outcome': impl[0] if impl[0] == 'ok' else impl[1]},
              nontrivial=stream == 'main' and ids != list(range(1, len(ids) + 1)))
+    for v in vs if stream == 'main' else []:
+        if v.get('dtype') or v.get('layout'):
+            ctx.count(f"nodal:dtype {v.get('dtype', 'default')}" + (f" ({v['profile']})" if v.get('dtype') in ('int64', 'uint64') else ''))
+            ctx.count(f"nodal:memory layout {v.get('layout', 'C')}")
+    if impl[0] == 'err' and not_encodable(vs) and stream in ('main', 'misaligned'):
+        # labelled stream: a dtype the legacy-VTK writer of meshio cannot encode at all (the export raises inside
+        # meshio.write); nothing asserted.  When such an export SUCCEEDS it is judged like every other one.
+        ctx.count(f"labelled: variable of dtype {'/'.join(not_encodable(vs))} (no legacy-VTK encoding in meshio): export raised {impl[1]}")
+        return
     if stream == 'main':
         ctx.count('mesh:' + ('mixed' if len(m['blocks']) > 1 else 'uniform'))
         ctx.count('mesh-order:' + order_class(m))
@@ -427,6 +572,9 @@ def updated_case(ctx, rnd, pending):
     count_renames(ctx, vs, 'updated:')
     # the update is semantically the identity (same id -> coordinates map): recorded, it is not a clause of C06
     ctx.count('updated:id->coordinates:' + ('kept' if dict(m['nodes']) == dict(m2['nodes']) and len(ids) == len(ids2) else 'CHANGED'))
+    if impl[0] == 'err' and not_encodable(vs):
+        ctx.count(f"labelled: variable of dtype {'/'.join(not_encodable(vs))} (no legacy-VTK encoding in meshio): export raised {impl[1]}")
+        return
     if impl[0] == 'ok':
         for sig, text in oracle(m2, vs, impl[1]):
             ctx.fail(sig, text + ' [after nodes.update(existing ids, same coordinates, allow_overwrite=True); node ids in storage '
@@ -540,12 +688,13 @@ def gen_mesh_h(rnd, quick=True):
 def to_femio_keep(m, keep):
     """meshgen.to_femio, keeping hold of the arrays handed to femio (the caller's arrays)"""
     from femio import FEMData, FEMAttribute, FEMElementalAttribute
-    keep[('nodes', None, 'ids')] = np.array([i for i, _ in m['nodes']])
-    keep[('nodes', None)] = np.array([[float(v) for v in p] for _, p in m['nodes']])
+    dts = m.get('dtypes') or {}
+    keep[('nodes', None, 'ids')] = np.array([i for i, _ in m['nodes']], dtype=dts.get('node_ids', 'int64'))
+    keep[('nodes', None)] = np.array([[float(v) for v in p] for _, p in m['nodes']]).astype(dts.get('coords', 'float64'))
     el = {}
     for t, b in m['blocks'].items():
-        keep[('conn', t, 'ids')] = np.array([e for e, _ in b])
-        keep[('conn', t)] = np.array([c for _, c in b])
+        keep[('conn', t, 'ids')] = np.array([e for e, _ in b], dtype=dts.get('elem_ids', 'int64'))
+        keep[('conn', t)] = np.array([c for _, c in b], dtype=dts.get('conn', 'int64'))
         el[t] = FEMAttribute(t, ids=keep[('conn', t, 'ids')], data=keep[('conn', t)], silent=True)
     nodes = FEMAttribute('NODE', ids=keep[('nodes', None, 'ids')], data=keep[('nodes', None)], silent=True)
     return G.quiet(lambda: FEMData(nodes=nodes, elements=FEMElementalAttribute('ELEMENT', G.insertion_order(el))))
@@ -581,6 +730,7 @@ def public_state(fd, base, geo):
         d = np.asarray(a.data)
         integer = d.dtype.kind in 'iub'
         v = {'name': k, 'attr': a.name, 'how': 'setitem', 'shape': list(d.shape[1:]), 'ids': [int(i) for i in a.ids], 'int': integer,
+             'dtype': d.dtype.name if d.dtype.kind in 'iubf' else None,
              'rows': [[F(int(x)) if integer else F(float(x)) for x in np.ravel(r)] for r in d]}
         if v['ids'] != nids:
             v['misaligned'] = True
@@ -1097,7 +1247,7 @@ def read_vtk(path):
     mm = G.quiet(meshio.read, str(path))
     points = [[F(float(x)) for x in p] for p in np.asarray(mm.points)]
     cells = [(cb.type, [[int(k) for k in r] for r in cb.data]) for cb in mm.cells]
-    pd = {k: [[F(float(x)) for x in np.ravel(r)] for r in v] for k, v in mm.point_data.items()}
+    pd = {k: exact_rows(v) for k, v in mm.point_data.items()}
     return {'points': points, 'cells': cells, 'point_data': pd}
 
 
@@ -1338,7 +1488,11 @@ def shrink_history(ctx, m, vs, steps, sig):
 def history_case(ctx, rnd, pending, ids_setter=False):
     stream = 'history:ids-setter' if ids_setter else 'history'
     m = gen_mesh_h(rnd, ctx.quick)
-    vs = gen_vars(rnd, m)
+    vs = gen_vars(rnd, m, encodable_only=True)
+    if rnd.random() < .25:
+        dims = m.get('dims', [])
+        m = pick_dtypes(rnd, m)
+        m['dims'] = dims + ['mesh arrays (ids / connectivity / coordinates) in other dtypes']
     if rnd.random() < .3:          # variable names that are prefixes of each other
         ren = {'N0': 'PART1', 'N1': 'PART10', 'N2': 'PART', 'N3': 'PART1_'}
         for v in vs:
@@ -1419,6 +1573,8 @@ def corpus(ctx, pending):
             continue
         m = G.from_json(j['mesh'])
         m['geometric_tet2'] = j['mesh'].get('geometric_tet2', False)
+        if j['mesh'].get('dtypes'):
+            m['dtypes'] = j['mesh']['dtypes']
         vs = [dict(v, rows=[[F(x) for x in r] for r in v['rows']]) for v in j['vars']]
         steps, fails = run_history(ctx, m, vs, steps=j['history'], pending=pending)
         ctx.count('corpus')
@@ -1483,7 +1639,11 @@ def replay(ctx, obj):
         table_oracle(ctx)
         return {'fails': bool(ctx.failures), 'violations': [(f['signature'], f['what']) for f in ctx.failures]}
     m = G.from_json(case['mesh'])
+    # replay files are written with sorted keys: back to the canonical type order the generators produce
+    m['blocks'] = {t: m['blocks'][t] for t in sorted(m['blocks'], key=G.ELEMENT_TYPES.index)}
     m['geometric_tet2'] = case['mesh'].get('geometric_tet2', False)
+    if case['mesh'].get('dtypes'):
+        m['dtypes'] = case['mesh']['dtypes']
     vs = case['vars']
     for v in vs:
         v['rows'] = [[F(x) for x in r] for r in v['rows']]
